@@ -230,3 +230,20 @@ Fixpoint recv_all (rc : rcfg) (t : table) (net : list (addr * packet)) : table *
       let '(t1, o1) := recv_packet rc t a p in
       let '(t2, o2) := recv_all rc t1 net' in (t2, o1 ++ o2)
   end.
+
+(* The read loop of DoInputImplementation(receiver, maxBytes) over a device that holds [queue]:
+   packets are read while fewer than maxBytes bytes have been read in this call; a Read() that returns
+   0 bytes (an empty datagram) ends the call -- that datagram is consumed.  Returns what is left queued. *)
+Fixpoint recv_loop (rc : rcfg) (t : table) (maxBytes total : N) (queue : list (addr * packet))
+  : table * list (addr * msg) * list (addr * packet) :=
+  match queue with
+  | [] => (t, [], [])
+  | (a, p) :: q' =>
+      if total <? maxBytes then
+        let bs := takeN (rc_mtu rc) p in
+        if lenN bs =? 0 then (t, [], q')
+        else
+          let '(t1, o1) := recv_packet rc t a p in
+          let '(t2, o2, rest) := recv_loop rc t1 maxBytes (total + lenN bs) q' in (t2, o1 ++ o2, rest)
+      else (t, [], queue)
+  end.
